@@ -48,14 +48,17 @@ theorem hdr_len_le {fmt g hdr P} (h : HdrOk fmt g hdr P) : hdr.length ≤ 2 := b
 theorem header_any (hdr P : List UInt8) (h : Handle) (g : RxG) (hc : RxCfg hdr P h g) (hi : RxGI hdr P g)
     (hph : RxPhase hdr P h g) (hfifo : g.taken = [] → hdr.length ≤ g.fifo.length) :
     DM.gwp rxE readPayloadHeader h g (fun g' r h' =>
-      ∃ c, r = .ok (some c) ∧ (c = 0 ∨ c = hdr.length) ∧ PhaseB hdr P h' g' ∧ h' = { h with expected := UInt16.ofNat P.length }
+      (∃ c, r = .ok (some c) ∧ (c = 0 ∨ c = hdr.length) ∧ PhaseB hdr P h' g' ∧ h' = { h with expected := UInt16.ofNat P.length }
       ∧ RxGI hdr P g' ∧ g.fifo.length ≤ g'.fifo.length + hdr.length ∧ g.Same g'
       ∧ ((g.over = true → g.ready = true) → hdr.length < g.fifo.length → (g'.over = true → g'.ready = true))
-      ∧ (c = 0 → g.taken ≠ [] ∨ hdr = []) ∧ (g.over = true → g'.over = true)) := by
+      ∧ (c = 0 → g.taken ≠ [] ∨ hdr = []) ∧ (g.over = true → g'.over = true))
+      ∨ (∃ c, r = .error c ∧ h' = h ∧ Fwd hdr P g g' ∧ g'.faulted = true)) := by
   rcases hph with ⟨hexp, hrcv, htk⟩ | ⟨hB, hexp⟩
   · refine gwp_mono rxE _ _ _ _ _ ?_ (header_spec hdr P h g hi hexp htk (hfifo htk) hc.hdrOk)
-    intro g' r h' ⟨hr, hh, hgi, htk', hlen, hsame, hkept, hover⟩
-    refine ⟨hdr.length, hr, Or.inr rfl, ?_, hh, hgi, hlen, hsame, hkept, ?_, hover⟩
+    intro g' r h' hpost
+    rcases hpost with ⟨hr, hh, hgi, htk', hlen, hsame, hkept, hover⟩ | hfail
+    case inr => exact Or.inr hfail
+    refine Or.inl ⟨hdr.length, hr, Or.inr rfl, ?_, hh, hgi, hlen, hsame, hkept, ?_, hover⟩
     · subst hh
       refine ⟨ofNat16 _ hc.p16, ?_, ?_, ?_⟩
       · show h.received.toNat ≤ _; rw [hrcv]; exact Nat.zero_le _
@@ -71,7 +74,7 @@ theorem header_any (hdr P : List UInt8) (h : Handle) (g : RxG) (hc : RxCfg hdr P
       have : h.expected = UInt16.ofNat P.length := by
         apply UInt16.toNat_inj.mp; rw [hB.exp, ofNat16 _ hc.p16]
       rw [← this]
-    refine ⟨0, rfl, Or.inl rfl, ?_, hh, hi, Nat.le_add_right _ _, ?_, fun hk _ => hk, ?_, id⟩
+    refine Or.inl ⟨0, rfl, Or.inl rfl, ?_, hh, hi, Nat.le_add_right _ _, ?_, fun hk _ => hk, ?_, id⟩
     · exact hB
     · exact RxG.Same.refl g
     · intro _
@@ -88,6 +91,38 @@ structure RxInv (hdr P : List UInt8) (h : Handle) (g : RxG) : Prop where
   phase : RxPhase hdr P h g
   kept : g.Kept
 
+/-- arrivals (and failed transfers) keep everything -/
+theorem RxInv.fwd {hdr P h g g'} (hv : RxInv hdr P h g) (hf : Fwd hdr P g g') : RxInv hdr P h g' := by
+  refine ⟨hv.cfg.of_same hf.same rfl rfl rfl rfl rfl, hf.gi, ?_, hf.kept hv.kept⟩
+  rcases hv.phase with ⟨a, b, c⟩ | ⟨⟨a, b, c, d⟩, e⟩
+  · exact Or.inl ⟨a, b, hf.taken.trans c⟩
+  · exact Or.inr ⟨⟨a, b, c, hf.taken.trans d⟩, e⟩
+
+theorem RxGI.irq {hdr P g} (hi : RxGI hdr P g) (v : UInt8) : RxGI hdr P { g with irq := v } :=
+  ⟨⟨hi.wf.overPending, hi.wf.readyOver, hi.wf.crc, hi.wf.crcReady, hi.wf.room⟩, hi.live, hi.stream⟩
+
+theorem RxPhase.of_eq {hdr P h h' g g'} (hp : RxPhase hdr P h g) (he : h'.expected = h.expected) (hr : h'.received = h.received)
+    (hpk : h'.packet = h.packet) (ht : g'.taken = g.taken) : RxPhase hdr P h' g' := by
+  rcases hp with ⟨a, b, c⟩ | ⟨⟨a, b, c, d⟩, e⟩
+  · exact Or.inl ⟨he.trans a, hr.trans b, ht.trans c⟩
+  · exact Or.inr ⟨⟨by rw [he]; exact a, by rw [hr]; exact b, by rw [hr, hpk]; exact c, by rw [hr, ht]; exact d⟩, by rw [he]; exact e⟩
+
+theorem RxInv.adv {hdr P h g g1} (hv : RxInv hdr P h g) (ha : g.Adv g1) :
+    RxInv hdr P h g1 ∧ g.Same g1 ∧ g.fifo.length ≤ g1.fifo.length ∧ (g.over = true → g1.over = true) := by
+  obtain ⟨hi1, hs, hl, hk, htk, hov⟩ := hv.gi.adv ha
+  exact ⟨⟨hv.cfg.of_same hs rfl rfl rfl rfl rfl, hi1, hv.phase.of_eq rfl rfl rfl htk, hk hv.kept⟩, hs, hl, hov⟩
+
+theorem RxInv.advF {hdr P h g g1} (hv : RxInv hdr P h g) (ha : g.AdvF g1) :
+    RxInv hdr P h g1 ∧ g.Same g1 ∧ g1.faulted = true := by
+  obtain ⟨hf, hfl⟩ := (Fwd.refl hv.gi).stepF ha
+  exact ⟨hv.fwd hf, hf.same, hfl⟩
+
+theorem RxInv.handle {hdr P h h' g} (hv : RxInv hdr P h g) (hm : h'.opmod = h.opmod) (hcb : h'.rxCb = h.rxCb)
+    (hpk : h'.packet = h.packet) (hf : h'.format = h.format) (hcr : h'.crcType = h.crcType)
+    (he : h'.expected = h.expected) (hr : h'.received = h.received) : RxInv hdr P h' g :=
+  ⟨hv.cfg.of_same (RxG.Same.refl g) hm hcb (by rw [hpk]) hf hcr, hv.gi, hv.phase.of_eq he hr hpk rfl, hv.kept⟩
+
+
 theorem take_chunk {P : List UInt8} {f p : List UInt8} {r n : Nat} (hst : f ++ p = P.drop r) (hn : n ≤ f.length) :
     f.take n = (P.drop r).take n := by
   rw [← hst, List.take_append_of_le_length hn]
@@ -102,7 +137,11 @@ theorem batch_level (fuel : Nat) (hdr P : List UInt8) (h : Handle) (g : RxG) (hv
   rw [gwp_bind]
   have hl2 := hdr_len_le hc.hdrOk
   refine gwp_mono rxE _ _ _ _ _ ?_ (header_any hdr P h g hc hi hph (fun _ => by omega))
-  intro g1 r1 h1 ⟨c, hr1, _, hB, hh1, hi1, hlen1, hs1, hk1, _, _⟩
+  intro g1 r1 h1 hpost1
+  rcases hpost1 with ⟨c, hr1, _, hB, hh1, hi1, hlen1, hs1, hk1, _, _⟩ | ⟨c, hre, hhe, hfe, _⟩
+  case inr =>
+    subst hre hhe
+    exact ⟨RxInv.fwd ⟨hc, hi, hph, hk⟩ hfe, hfe.same.cbs, rfl, hfe.same⟩
   subst hr1
   dsimp only
   rw [gwp_bind, gwp_getH]
@@ -126,7 +165,15 @@ theorem batch_level (fuel : Nat) (hdr P : List UInt8) (h : Handle) (g : RxG) (hv
       have := hcfg1.fits; show h1.received.toNat + 30 ≤ _; omega
     rw [if_pos hcap, gwp_bind, gwp_bread]
     intro r2 g2 hr2
-    obtain ⟨d, g1', hr2v, ha2, hg2, hdl, hdv⟩ := rx_bread hi1.live _ r2 g2 hr2
+    have hv1 : RxInv hdr P h1 g1 := ⟨hcfg1, hi1, Or.inr ⟨hB, by
+      intro h0
+      have h00 : h1.expected.toNat = 0 := congrArg UInt16.toNat h0
+      rw [hB.exp] at h00; omega⟩, hk1'⟩
+    rcases rx_bread hi1.live _ r2 g2 hr2 with ⟨ce, hre, hae⟩ | ⟨d, g1', hr2v, ha2, hg2, hdl, hdv⟩
+    case inl =>
+      subst hre
+      obtain ⟨hve, hse, _⟩ := hv1.advF hae
+      exact ⟨hve, (hs1.trans hse).cbs, by subst hh1; rfl, hs1.trans hse⟩
     subst hr2v hg2
     have hdl' : d.length = 30 := hdl
     obtain ⟨hi1', hs1', hlen1', hk1'', htk1', _⟩ := hi1.adv ha2
